@@ -111,11 +111,15 @@ def part_a(ctx, n):
         ctx.count(("sa", full, ax))
         stats["set_axes"] += 1
         # --- direct scalar_prod / matrix_prod with index-encoded arrays
-        B = tuple(rng.choice([1, 2, 2, 3]) for _ in range(rng.randint(0, 3)))
+        B = tuple(rng.choice([1, 2, 2, 3]) for _ in range(rng.randint(0, 4)))
         if rng.random() < 0.7 and len(B) >= 1:
             A = sub_shape(rng, B, 1)
-            if rng.random() < 0.4:   # shapes of the in-place matmul kind: A[0] = 1, A[j+1] in {1, B[j]}
+            r = rng.random()
+            if r < 0.25:   # A[0] = 1, A[j+1] in {1, B[j]} (one axis off)
                 A = (1,) + tuple(B[j] if rng.random() < 0.7 else 1 for j in range(rng.randint(0, len(B) - 1)))
+            elif r < 0.6 and len(B) >= 3:   # leading singleton axes, then sizes of the first state axes (rank gap)
+                lead = rng.randint(1, len(B) - 1)
+                A = (1,) * lead + tuple(B[j] if rng.random() < 0.8 else 1 for j in range(rng.randint(1, len(B) - lead)))
         else:
             A = tuple(rng.choice([1, 2, 3]) for _ in range(rng.randint(1, 3)))
         ns = rng.choice([1, 3])
@@ -171,9 +175,9 @@ def part_a(ctx, n):
             loop = None
         if which == "matrix-inplace":
             if loop is None:
-                t = "(mprod_check true %s %s %d None [])" % (cshape(A), cshape(B), ns)
+                t = "(mprod_check %s %s %d None [])" % (cshape(A), cshape(B), ns)
             else:
-                t = "(mprod_check true %s %s %d %s [%s])" % (cshape(A), cshape(B), ns, coshape(loop.shape[:-1]), "; ".join(samples_of(loop, True)))
+                t = "(mprod_check %s %s %d %s [%s])" % (cshape(A), cshape(B), ns, coshape(loop.shape[:-1]), "; ".join(samples_of(loop, True)))
         else:
             if loop is None:
                 t = "(prod_check %s %s %d None [])" % (cshape(A), cshape(B), ns)
@@ -217,6 +221,8 @@ PHYS = {
     "R": [("rT", (0.01, 0.5)), ("rL", (0.001, 0.1))],
 }
 MATRIX_KINDS = {"T", "Phi", "MatrixOp"}
+import random as _random
+M0 = prog.gen_mat(_random.Random(7))      # fixed dyadic mixing matrix for the exact stream
 
 
 def rnd_values(rng, lo, hi, shape):
@@ -266,13 +272,13 @@ def gen_opshape(rng, G, mode=None):
 
 
 def gen_case(rng, tier, exact=False, deriv=None, force=None):
-    g = rng.choice([1, 2, 2, 2, 3, 3] + ([4] if tier != "quick" else [3]))
+    g = rng.choice([1, 2, 2, 2, 3, 3, 4])
     if rng.random() < 0.45:
         d = rng.choice([2, 2, 3])
         G = tuple(d if rng.random() < 0.8 else 1 for _ in range(g))   # equal sizes: the in-place matmul shapes
     else:
         G = tuple(rng.choice([1, 2, 2, 3]) for _ in range(g))
-    if prodn(G) > 36:
+    if prodn(G) > (16 if g == 4 else 36):
         G = tuple(min(d, 2) for d in G)
     nops = rng.randint(2, 6)
     deriv = deriv if deriv is not None else rng.choice(["none", "none", "o1", "o1", "o2"])
@@ -337,6 +343,10 @@ def gen_case(rng, tier, exact=False, deriv=None, force=None):
         ops.append({"kind": "T0"})
         ops.append({"kind": "S", "k": -shifted, "A": [1]})
     ops.append({"kind": "ADC"})
+    if exact:
+        for o in ops:
+            if o["kind"] == "T0":
+                o["kind"] = "M0"
     case = {"grid": list(G), "ops": ops, "deriv": deriv, "exact": exact, "probe": rng.choice(["F0", "Z0"])}
     return case
 
@@ -363,6 +373,8 @@ def build_op(o, idx=None):
         return epg.ADC
     if k == "T0":
         return epg.T(35, 20)
+    if k == "M0":
+        return opmatrix.MatrixOp(np.array(M0, dtype=complex))
     if k == "S":
         kk = np.asarray(o["k"])
         if kk.ndim == 0:
@@ -424,6 +436,9 @@ def run_scalar(case, idx):
     return [np.asarray(a) for a in (out if len(pr) > 1 else [out])]
 
 
+BOTH_RAISE = [0]
+
+
 def spec_grid(case):
     """getshape as the property defines it: append-broadcast of the operator shapes"""
     shapes = [tuple(o["A"]) if o.get("A") else (1,) for o in case["ops"]]
@@ -446,6 +461,13 @@ def oracle(case):
     except Exception as e:
         tb = traceback.extract_tb(e.__traceback__)
         where = ["%s:%d:%s" % (f.filename.split("/")[-1], f.lineno, f.name) for f in tb if "epgpy" in f.filename][-3:]
+        try:        # the scalar run of the first grid point raises the same way: not a matter of vectorisation
+            run_scalar(case, (0,) * len(G or ()))
+        except type(e):
+            BOTH_RAISE[0] += 1
+            return None
+        except Exception:
+            pass
         return ("exception", {"type": type(e).__name__, "msg": str(e)[:200], "where": where})
     nacq = sum(1 for o in case["ops"] if o["kind"] == "ADC")
     for a in vec:
@@ -545,6 +567,20 @@ class patched:
                 wrap(transition, nm)
             for nm in ("precession_d_tau", "precession_d_g", "precession_d2_tau", "precession_d2_g", "precession_d_tau_g"):
                 wrap(evolution, nm)
+        if self.which == "evolution_d-expand":
+            def wrap3(name):
+                f = getattr(evolution, name, None)
+                if f is None:
+                    return
+                self.saved_fns.append((evolution, name, f))
+
+                def w(rT, rL, r0=None, f=f):
+                    rT, rL, r0 = common.expand_arrays(rT, rL, r0, append=True)
+                    z = 0 * np.asarray(rT) + 0 * np.asarray(rL) + (0 if r0 is None else 0 * np.asarray(r0))
+                    return f(rT + z, rL + z, None if r0 is None else r0 + z)
+                setattr(evolution, name, w)
+            for nm in ("evolution_d_rT", "evolution_d_rL", "evolution_d_r0", "evolution_d2_rT", "evolution_d2_rL", "evolution_d2_r0", "evolution_d_cross"):
+                wrap3(nm)
         NAX = np.newaxis
         if self.which == "matmul-fallback":
             def matrix_prod(mat, states, inplace=False):
@@ -579,7 +615,7 @@ def classify(case, res):
     """signature of a failing case: which counterfactual repair makes it pass"""
     with patched("matmul-fallback"):
         if oracle(case) is None:
-            return {"site": "matrix_prod-inplace", "shapes": "op(1,m) state(k,m)"}
+            return {"site": "matrix_prod-inplace", "why": "in-place-differs-from-fall-back"}
     has_axes_deriv = any(o.get("axes") is not None and o.get("order1") and o["kind"] in ("E", "P", "R") for o in case["ops"])
     if has_axes_deriv:
         with patched("scalar_setup-axes-once"):
@@ -601,6 +637,10 @@ def classify(case, res):
                 o["pad_to"] = g
         if oracle(c2) is None:      # passes once the shifts carry the trailing singleton axes themselves
             return {"site": "S-batched", "why": "shift-right-aligned-with-state"}
+    if case["deriv"] != "none" and any(o["kind"] == "R" and o.get("order1") for o in case["ops"]):
+        with patched("evolution_d-expand"):
+            if oracle(case) is None:
+                return {"site": "evolution_d", "why": "derivative-array-right-aligned-with-ref"}
     if case["deriv"] != "none":
         with patched("deriv-expand"):
             if oracle(case) is None:
@@ -610,7 +650,7 @@ def classify(case, res):
         if "_acquire" in w or "accumulate" in w or "diff.py" in w or "stack" in res[1].get("msg", ""):
             return {"site": "Jacobian-stack", "why": "partials-of-different-batch-shapes"}
     return {"site": "unclassified", "kind": res[0], "deriv": case["deriv"],
-            "kinds": sorted({o["kind"] for o in case["ops"] if o["kind"] not in ("ADC", "T0")})}
+            "kinds": sorted({o["kind"] for o in case["ops"] if o["kind"] not in ("ADC", "T0", "M0")})}
 
 
 def jsonable(case):
@@ -756,6 +796,7 @@ def part_bc(ctx, n, n_exact):
             done = True
             ctx.report("op.shape / getshape / simulate().shape differ from the model", {"case": jsonable(case), "shape_only": True},
                        found_input=True, signature={"site": "getshape", "why": "model-vs-implementation"})
+    stats["vector_and_scalar_raise_alike_skipped"] = BOTH_RAISE[0]
     ctx.cov["oracle"] = stats
 
 
@@ -772,21 +813,37 @@ def witness_inplace():
     return v, ref
 
 
+def witness_twice():
+    """regression witness (defect repaired by 8deb244): a (1,1,2) MatrixOp on a
+    (2,1,2,1) state. Returns (in-place result, fall-back result) of matrix_prod"""
+    from epgpy import opmatrix
+    mat = np.array([1.0, 2.0]).reshape(1, 1, 2)[..., None, None] * np.eye(3)
+    st = np.ones((2, 1, 2, 1, 1, 3), dtype=complex)
+    a = opmatrix.matrix_prod(mat, st.copy(), inplace=True)[..., 0, 0].real
+    b = opmatrix.matrix_prod(mat, st.copy(), inplace=False)[..., 0, 0].real
+    return a, b
+
+
 def run(ctx):
     proved = ctx.prove(gen=False)
     quick = ctx.tier == "quick"
+    # regression witnesses of the two repaired in-place matmul defects (must pass)
+    a, b = witness_twice()
+    if not (a.shape == b.shape and np.array_equal(a, b)):
+        ctx.report("in-place matmul operand carries the inserted batch axes twice when states.ndim - mat.ndim + 1 > 1: "
+                   "matrix_prod(mat (1,1,2,3,3), states (2,1,2,1,ns,3), inplace=True) gives %s, the fall-back form %s"
+                   % (a.squeeze().tolist(), b.squeeze().tolist()),
+                   {"witness": "axes-inserted-twice", "inplace": str(a.squeeze()), "fallback": str(b.squeeze())}, found_input=True,
+                   signature={"site": "matrix_prod-inplace", "why": "axes-inserted-twice", "shapes": "state rank >= op rank + 1"})
     part_a(ctx, 90 if quick else 1500)
-    # the witness of the refuted theorem (C07_vectorised_refuted / DESIGN 9.14) on the implementation
     v, ref = witness_inplace()
     if not np.allclose(v, ref, rtol=1e-12, atol=1e-14):
         ctx.report("in-place matmul aligns a (1,m) MatrixOp with the wrong axis of a (k,m) state: "
                    "[T(90,90), E(5,[300,800],50), S(1), T([[30,120]],0), S(-1), Adc('Z0')] gives %s, the four scalar runs give %s"
                    % (np.round(v.real, 5).tolist(), np.round(ref.real, 5).tolist()),
-                   {"witness": "C07_vectorised_refuted", "vector": str(v), "scalar": str(ref)}, found_input=True,
+                   {"witness": "DESIGN 9.14", "vector": str(v), "scalar": str(ref)}, found_input=True,
                    signature={"site": "matrix_prod-inplace", "shapes": "op(1,m) state(k,m)"})
-        ctx.notes["inplace_branch_defect_present"] = True
-    else:
-        ctx.notes["inplace_branch_defect_present"] = False
+    ctx.notes["regression_witnesses"] = "DESIGN 9.14 (1,m)x(k,m) and axes-inserted-twice (1,1,2)x(2,1,2,1): replayed"
     part_bc(ctx, 70 if quick else 1200, 25 if quick else 400)
     ctx.cov["trusted_base"] += [
         "hand-written model Model/Vector.v tied to epgpy.common / scalar_prod / matrix_prod / prepare / getshape by exact correspondence of shapes, raise/no-raise and of the elements read (index-encoded arrays)",
@@ -799,6 +856,11 @@ def run(ctx):
 
 
 def replay(ctx, rp):
+    if rp.get("witness") in ("axes-inserted-twice", "C07_matrix_prod_inplace_tree_refuted"):
+        a, b = witness_twice()
+        bad = not (a.shape == b.shape and np.array_equal(a, b))
+        print("replay: VIOLATION reproduced: in place %s, fall-back %s" % (a.squeeze().tolist(), b.squeeze().tolist()) if bad else "replay: in-place equals fall-back")
+        return 1 if bad else 0
     if "witness" in rp:
         v, ref = witness_inplace()
         bad = not np.allclose(v, ref, rtol=1e-12, atol=1e-14)
